@@ -234,30 +234,131 @@ def should_modes(mode: int, source_compressed: bool, length: int, size: int, spo
     return _should(('yes', 'no', 'keep')[mode], source_compressed, length, size, spos, zs, z)
 
 
-def should_auto_packed(length: int, size: int, spos: int, zs: int, z: int) -> bool:
+def should_auto_packed_0(length: int, spos: int, zs: int, z: int) -> bool:
     """
-    pre: 0 <= length <= 300000 and 0 <= size <= 300000 and 0 <= spos <= size
-    pre: 1 <= zs <= 300000 and 2 <= z <= 300000
+    pre: 0 <= length <= 300000 and 0 <= spos <= 0 and 1 <= zs <= 300000 and 2 <= z <= 300000
     post: _
     """
-    return _should('auto', True, length, size, spos, zs, z)
+    return _should('auto', True, length, 0, spos, zs, z)
 
 
-def should_auto_small(size: int, spos: int, zs: int, z: int) -> bool:
+def should_auto_packed_1(length: int, spos: int, zs: int, z: int) -> bool:
     """
-    AUTO on an uncompressed source of up to 16 KiB (the sampling loop reads the whole object, 1 KiB at a time).
-    pre: 0 <= size <= 16384 and 0 <= spos <= size
-    pre: 1 <= zs <= 300000 and 2 <= z <= 300000
+    pre: 0 <= length <= 300000 and 0 <= spos <= 1 and 1 <= zs <= 300000 and 2 <= z <= 300000
     post: _
     """
-    return _should('auto', False, size, size, spos, zs, z)
+    return _should('auto', True, length, 1, spos, zs, z)
 
 
-def should_auto_big(size: int, spos: int, zs: int, z: int) -> bool:
+def should_auto_packed_10(length: int, spos: int, zs: int, z: int) -> bool:
     """
-    AUTO on an uncompressed source above the 128 KiB sampling window (128 samples at size // 128 intervals).
-    pre: 131072 <= size <= 300000 and 0 <= spos <= size
-    pre: 1 <= zs <= 300000 and 2 <= z <= 300000
+    pre: 0 <= length <= 300000 and 0 <= spos <= 10 and 1 <= zs <= 300000 and 2 <= z <= 300000
     post: _
     """
-    return _should('auto', False, size, size, spos, zs, z)
+    return _should('auto', True, length, 10, spos, zs, z)
+
+
+def should_auto_packed_1000(length: int, spos: int, zs: int, z: int) -> bool:
+    """
+    pre: 0 <= length <= 300000 and 0 <= spos <= 1000 and 1 <= zs <= 300000 and 2 <= z <= 300000
+    post: _
+    """
+    return _should('auto', True, length, 1000, spos, zs, z)
+
+
+def should_auto_packed_299999(length: int, spos: int, zs: int, z: int) -> bool:
+    """
+    pre: 0 <= length <= 300000 and 0 <= spos <= 299999 and 1 <= zs <= 300000 and 2 <= z <= 300000
+    post: _
+    """
+    return _should('auto', True, length, 299999, spos, zs, z)
+
+
+def should_auto_plain_0(spos: int, worth: bool) -> bool:
+    """
+    pre: 0 <= spos <= 0
+    post: _
+    """
+    return _should('auto', False, 0, 0, spos, 10 if worth else 400000, 30)
+
+
+def should_auto_plain_1(spos: int, worth: bool) -> bool:
+    """
+    pre: 0 <= spos <= 1
+    post: _
+    """
+    return _should('auto', False, 1, 1, spos, 10 if worth else 400000, 30)
+
+
+def should_auto_plain_1023(spos: int, worth: bool) -> bool:
+    """
+    pre: 0 <= spos <= 1023
+    post: _
+    """
+    return _should('auto', False, 1023, 1023, spos, 10 if worth else 400000, 30)
+
+
+def should_auto_plain_1024(spos: int, worth: bool) -> bool:
+    """
+    pre: 0 <= spos <= 1024
+    post: _
+    """
+    return _should('auto', False, 1024, 1024, spos, 10 if worth else 400000, 30)
+
+
+def should_auto_plain_1025(spos: int, worth: bool) -> bool:
+    """
+    pre: 0 <= spos <= 1025
+    post: _
+    """
+    return _should('auto', False, 1025, 1025, spos, 10 if worth else 400000, 30)
+
+
+def should_auto_plain_5000(spos: int, worth: bool) -> bool:
+    """
+    pre: 0 <= spos <= 5000
+    post: _
+    """
+    return _should('auto', False, 5000, 5000, spos, 10 if worth else 400000, 30)
+
+
+def should_auto_plain_131071(spos: int, worth: bool) -> bool:
+    """
+    pre: 0 <= spos <= 131071
+    post: _
+    """
+    return _should('auto', False, 131071, 131071, spos, 10 if worth else 400000, 30)
+
+
+def should_auto_plain_131072(spos: int, worth: bool) -> bool:
+    """
+    pre: 0 <= spos <= 131072
+    post: _
+    """
+    return _should('auto', False, 131072, 131072, spos, 10 if worth else 400000, 30)
+
+
+def should_auto_plain_131073(spos: int, worth: bool) -> bool:
+    """
+    pre: 0 <= spos <= 131073
+    post: _
+    """
+    return _should('auto', False, 131073, 131073, spos, 10 if worth else 400000, 30)
+
+
+def should_auto_plain_200000(spos: int, worth: bool) -> bool:
+    """
+    pre: 0 <= spos <= 200000
+    post: _
+    """
+    return _should('auto', False, 200000, 200000, spos, 10 if worth else 400000, 30)
+
+
+def should_auto_plain_300000(spos: int, worth: bool) -> bool:
+    """
+    pre: 0 <= spos <= 300000
+    post: _
+    """
+    return _should('auto', False, 300000, 300000, spos, 10 if worth else 400000, 30)
+
+
